@@ -82,7 +82,184 @@ theorem dxp_scale : dxp (scaleP p a b m) (a * xlab) (b * time) = a * dxp p xlab 
 theorem hh_scale : hh (scaleP p a b m) (a * xlab) (b * time) = a * hh p xlab time := by
   rw [hh, hh, x1_scale p xlab time a b m ha hb, xp_scale p time a b m ha hb]; simp only [scaleP]; ring
 
+/-- abbreviations for the scaled arguments -/
+local notation "p'" => scaleP p a b m
+local notation "x'" => a * xlab
+local notation "t'" => b * time
+
+theorem arg1 : x1 p' x' t' + (scaleP p a b m).dx = a * (x1 p xlab time + p.dx) := by
+  rw [x1_scale p xlab time a b m ha hb]; simp only [scaleP]; ring
+theorem arg2 : x1 p' x' t' + (1 / 2 : ℝ) * (scaleP p a b m).dx = a * (x1 p xlab time + (1 / 2 : ℝ) * p.dx) := by
+  rw [x1_scale p xlab time a b m ha hb]; simp only [scaleP]; ring
+theorem arg3 : x1 p' x' t' + dxp p' x' t' = a * (x1 p xlab time + dxp p xlab time) := by
+  rw [x1_scale p xlab time a b m ha hb, dxp_scale p xlab time a b m ha hb]; ring
+theorem arg4 : x1 p' x' t' + hh p' x' t' = a * (x1 p xlab time + hh p xlab time) := by
+  rw [x1_scale p xlab time a b m ha hb, hh_scale p xlab time a b m ha hb]; ring
+
+/-! ### fan leaf -/
+theorem fan_velocity_scale : MaderRare.L0.velocity p' x' t' = a / b * MaderRare.L0.velocity p xlab time := by
+  rw [fan_velocity_eq, fan_velocity_eq, arg2 p xlab time a b m ha hb, dd_scale p time a b m ha hb,
+    ee_scale p a b m ha hb]
+  field_simp
+theorem fan_sound_speed_scale :
+    MaderRare.L0.sound_speed p' x' t' = a / b * MaderRare.L0.sound_speed p xlab time := by
+  rw [fan_sound_speed_eq, fan_sound_speed_eq, arg2 p xlab time a b m ha hb, Y_scale p time a b m ha hb,
+    ccj_scale p a b m ha hb]
+  ring
+theorem fan_pressure_scale : MaderRare.L0.pressure p' x' t' = m * MaderRare.L0.pressure p xlab time := by
+  rw [fan_pressure_eq, fan_pressure_eq, arg1 p xlab time a b m ha hb, x1_scale p xlab time a b m ha hb,
+    Y_scale p time a b m ha hb, Y_scale p time a b m ha hb, aa_scale p time a b m ha hb, bexp_scale p a b m ha hb]
+  simp only [scaleP]
+  have : p.dx * a * (aa p time / a) = p.dx * aa p time := by field_simp
+  rw [this]; ring
+theorem fan_density_scale :
+    MaderRare.L0.density p' x' t' = m * (b / a) ^ 2 * MaderRare.L0.density p xlab time := by
+  rw [fan_density_eq, fan_density_eq, arg1 p xlab time a b m ha hb, x1_scale p xlab time a b m ha hb,
+    Y_scale p time a b m ha hb, Y_scale p time a b m ha hb, aa_scale p time a b m ha hb, dexp_scale p a b m ha hb,
+    rhocj_scale p a b m ha hb]
+  simp only [scaleP]
+  have : p.dx * a * (aa p time / a) = p.dx * aa p time := by field_simp
+  rw [this]; ring
+
+/-! ### constant-state leaf -/
+theorem plateau_velocity_scale : MaderRare.L4.velocity p' x' t' = a / b * MaderRare.L4.velocity p xlab time := by
+  rw [plateau_velocity_eq, plateau_velocity_eq]; simp only [scaleP]; ring
+theorem plateau_sound_speed_scale :
+    MaderRare.L4.sound_speed p' x' t' = a / b * MaderRare.L4.sound_speed p xlab time := by
+  rw [plateau_sound_speed_eq, plateau_sound_speed_eq, Z_scale p a b m ha hb, ccj_scale p a b m ha hb]; ring
+theorem plateau_pressure_scale : MaderRare.L4.pressure p' x' t' = m * MaderRare.L4.pressure p xlab time := by
+  rw [plateau_pressure_eq, plateau_pressure_eq, Z_scale p a b m ha hb, bexp_scale p a b m ha hb]
+  simp only [scaleP]; ring
+theorem ratio_scale (hm : m ≠ 0) (q : ℝ) : p.p_cj * m * q / (p.p_cj * m) = p.p_cj * q / p.p_cj := by
+  by_cases hp : p.p_cj = 0
+  · simp [hp]
+  · field_simp
+theorem plateau_density_scale (hm : m ≠ 0) :
+    MaderRare.L4.density p' x' t' = m * (b / a) ^ 2 * MaderRare.L4.density p xlab time := by
+  rw [plateau_density_eq, plateau_density_eq, Z_scale p a b m ha hb, bexp_scale p a b m ha hb,
+    rhocj_scale p a b m ha hb]
+  simp only [scaleP]
+  rw [ratio_scale p a b m ha hb hm]; ring
+
+/-! ### transition-cell leaf -/
+theorem uf_scale : uf p' x' t' = a / b * uf p xlab time := by
+  rw [uf, uf, arg4 p xlab time a b m ha hb, dd_scale p time a b m ha hb, ee_scale p a b m ha hb]
+  field_simp
+theorem cf_scale : cf p' x' t' = a / b * cf p xlab time := by
+  rw [cf, cf, arg4 p xlab time a b m ha hb, Y_scale p time a b m ha hb, ccj_scale p a b m ha hb]; ring
+theorem pf_scale : pf p' x' t' = m * pf p xlab time := by
+  rw [pf, pf, arg3 p xlab time a b m ha hb, x1_scale p xlab time a b m ha hb, Y_scale p time a b m ha hb,
+    Y_scale p time a b m ha hb, aa_scale p time a b m ha hb, bexp_scale p a b m ha hb, dxp_scale p xlab time a b m ha hb]
+  simp only [scaleP]
+  have : a * dxp p xlab time * (aa p time / a) = dxp p xlab time * aa p time := by field_simp
+  rw [this]; ring
+theorem rf_scale : rf p' x' t' = m * (b / a) ^ 2 * rf p xlab time := by
+  rw [rf, rf, arg3 p xlab time a b m ha hb, x1_scale p xlab time a b m ha hb, Y_scale p time a b m ha hb,
+    Y_scale p time a b m ha hb, aa_scale p time a b m ha hb, dexp_scale p a b m ha hb, dxp_scale p xlab time a b m ha hb,
+    rhocj_scale p a b m ha hb]
+  have : a * dxp p xlab time * (aa p time / a) = dxp p xlab time * aa p time := by field_simp
+  rw [this]; ring
+theorem zr_scale : zr p' x' t' = zr p xlab time := by
+  rw [zr, zr, uf_scale p xlab time a b m ha hb, ucj_scale p a b m ha hb, ccj_scale p a b m ha hb]
+  simp only [scaleP]
+  by_cases hc : ccj p = 0
+  · simp [hc]
+  have : a / b ≠ 0 := div_ne_zero ha hb
+  congr 1
+  field_simp
+theorem pr_scale : pr p' x' t' = m * pr p xlab time := by
+  rw [pr, pr, zr_scale p xlab time a b m ha hb, bexp_scale p a b m ha hb]; simp only [scaleP]; ring
+theorem cr_scale : cr p' x' t' = a / b * cr p xlab time := by
+  rw [cr, cr, zr_scale p xlab time a b m ha hb, ccj_scale p a b m ha hb]; ring
+theorem rhor_scale (hm : m ≠ 0) : rhor p' x' t' = m * (b / a) ^ 2 * rhor p xlab time := by
+  rw [rhor, rhor, pf_scale p xlab time a b m ha hb, rhocj_scale p a b m ha hb]
+  simp only [scaleP]
+  have : m * pf p xlab time / (p.p_cj * m) = pf p xlab time / p.p_cj := by
+    by_cases hp : p.p_cj = 0
+    · simp [hp]
+    · field_simp
+  rw [this]; ring
+
+theorem hh_over_dx : hh p' x' t' / (scaleP p a b m).dx = hh p xlab time / p.dx := by
+  rw [hh_scale p xlab time a b m ha hb]; simp only [scaleP]
+  by_cases hd : p.dx = 0
+  · simp [hd]
+  · field_simp
+
+theorem trans_velocity_scale : MaderRare.L1.velocity p' x' t' = a / b * MaderRare.L1.velocity p xlab time := by
+  rw [trans_velocity_eq', trans_velocity_eq', uf_scale p xlab time a b m ha hb, mul_div_assoc, mul_div_assoc,
+    hh_over_dx p xlab time a b m ha hb]
+  simp only [scaleP]; ring
+theorem trans_sound_speed_scale :
+    MaderRare.L1.sound_speed p' x' t' = a / b * MaderRare.L1.sound_speed p xlab time := by
+  rw [trans_sound_speed_eq', trans_sound_speed_eq', cf_scale p xlab time a b m ha hb, cr_scale p xlab time a b m ha hb,
+    mul_div_assoc, mul_div_assoc, hh_over_dx p xlab time a b m ha hb]
+  ring
+theorem trans_pressure_scale : MaderRare.L1.pressure p' x' t' = m * MaderRare.L1.pressure p xlab time := by
+  rw [trans_pressure_eq, trans_pressure_eq, pf_scale p xlab time a b m ha hb, pr_scale p xlab time a b m ha hb,
+    mul_div_assoc, mul_div_assoc, hh_over_dx p xlab time a b m ha hb]
+  ring
+theorem trans_density_scale (hm : m ≠ 0) :
+    MaderRare.L1.density p' x' t' = m * (b / a) ^ 2 * MaderRare.L1.density p xlab time := by
+  rw [trans_density_eq, trans_density_eq, rf_scale p xlab time a b m ha hb, rhor_scale p xlab time a b m ha hb hm,
+    mul_div_assoc, mul_div_assoc, hh_over_dx p xlab time a b m ha hb]
+  ring
+
 end
+
+/-! ### the branch -/
+
+theorem c0_scale (ha : 0 < a) (hb : b ≠ 0) :
+    MaderRare.c0 (scaleP p a b m) (a * xlab) (b * time) ↔ MaderRare.c0 p xlab time := by
+  rw [c0_eq, c0_eq, xdet_scale p xlab time a b m ha.ne' hb, xp_scale p time a b m ha.ne' hb, ← mul_sub, abs_mul,
+    abs_of_pos ha]
+  simp only [scaleP]
+  constructor <;> intro h <;> nlinarith
+theorem c2_scale (ha : 0 < a) (hb : b ≠ 0) :
+    MaderRare.c2 (scaleP p a b m) (a * xlab) (b * time) ↔ MaderRare.c2 p xlab time := by
+  rw [c2_eq, c2_eq, xdet_scale p xlab time a b m ha.ne' hb, xp_scale p time a b m ha.ne' hb, ← mul_sub, abs_mul,
+    abs_of_pos ha]
+  simp only [scaleP]
+  constructor <;> intro h <;> nlinarith
+theorem c1_scale (ha : 0 < a) (hb : b ≠ 0) :
+    MaderRare.c1 (scaleP p a b m) (a * xlab) (b * time) ↔ MaderRare.c1 p xlab time := by
+  rw [c1_eq, c1_eq, xdet_scale p xlab time a b m ha.ne' hb, xp_scale p time a b m ha.ne' hb]
+  constructor <;> intro h <;> nlinarith
+
+/-- **The scaling group of `rare`** (tree level: same branch, scaled fields). -/
+theorem mader_scaling (ha : 0 < a) (hb : 0 < b) (hm : 0 < m) :
+    MaderRare.velocity (scaleP p a b m) (a * xlab) (b * time) = a / b * MaderRare.velocity p xlab time ∧
+    MaderRare.sound_speed (scaleP p a b m) (a * xlab) (b * time) = a / b * MaderRare.sound_speed p xlab time ∧
+    MaderRare.pressure (scaleP p a b m) (a * xlab) (b * time) = m * MaderRare.pressure p xlab time ∧
+    MaderRare.density (scaleP p a b m) (a * xlab) (b * time) = m * (b / a) ^ 2 * MaderRare.density p xlab time ∧
+    MaderRare.xdet (scaleP p a b m) (a * xlab) (b * time) = a * MaderRare.xdet p xlab time ∧
+    MaderRare.leaf (scaleP p a b m) (a * xlab) (b * time) = MaderRare.leaf p xlab time := by
+  have e0 := c0_scale p xlab time a b m ha hb.ne'
+  have e1 := c1_scale p xlab time a b m ha hb.ne'
+  have e2 := c2_scale p xlab time a b m ha hb.ne'
+  have hx : ∀ (L : MaderRare.P → ℝ → ℝ → ℝ), (∀ q x t, L q x t = (q.d_cj * t) - x) →
+      L (scaleP p a b m) (a * xlab) (b * time) = a * L p xlab time := by
+    intro L hL; rw [hL, hL]; simp only [scaleP]; field_simp
+  simp only [MaderRare.velocity, MaderRare.sound_speed, MaderRare.pressure, MaderRare.density, MaderRare.xdet,
+    MaderRare.leaf]
+  by_cases h0 : MaderRare.c0 p xlab time
+  · by_cases h1 : MaderRare.c1 p xlab time
+    · simp only [if_pos h0, if_pos h1, if_pos (e0.mpr h0), if_pos (e1.mpr h1)]
+      exact ⟨fan_velocity_scale p xlab time a b m ha.ne' hb.ne', fan_sound_speed_scale p xlab time a b m ha.ne' hb.ne',
+        fan_pressure_scale p xlab time a b m ha.ne' hb.ne', fan_density_scale p xlab time a b m ha.ne' hb.ne',
+        hx _ (fun _ _ _ => rfl), trivial⟩
+    · have h2 : ¬ MaderRare.c2 p xlab time := by
+        rw [c0_eq] at h0; rw [c2_eq]; linarith
+      simp only [if_pos h0, if_neg h1, if_neg h2, if_pos (e0.mpr h0), if_neg (mt e1.mp h1), if_neg (mt e2.mp h2)]
+      exact ⟨plateau_velocity_scale p xlab time a b m ha.ne' hb.ne', plateau_sound_speed_scale p xlab time a b m ha.ne' hb.ne',
+        plateau_pressure_scale p xlab time a b m ha.ne' hb.ne', plateau_density_scale p xlab time a b m ha.ne' hb.ne' hm.ne',
+        hx _ (fun _ _ _ => rfl), trivial⟩
+  · have h2 : MaderRare.c2 p xlab time := by
+      rw [c0_eq] at h0; rw [c2_eq]; linarith
+    simp only [if_neg h0, if_pos h2, if_neg (mt e0.mp h0), if_pos (e2.mpr h2)]
+    exact ⟨trans_velocity_scale p xlab time a b m ha.ne' hb.ne', trans_sound_speed_scale p xlab time a b m ha.ne' hb.ne',
+      trans_pressure_scale p xlab time a b m ha.ne' hb.ne', trans_density_scale p xlab time a b m ha.ne' hb.ne' hm.ne',
+      hx _ (fun _ _ _ => rfl), trivial⟩
 
 end
 
